@@ -99,7 +99,8 @@ int main(int argc, char **argv)
 	for (L = 100; L <= 255; L++) {
 		int maxd = L - 24 < 128 ? L - 24 : 128;
 		for (dlen = 3; dlen <= maxd; dlen++) {
-			int pick = (dlen == 3 || dlen == maxd || dlen == maxd - 1 || dlen == 4 || (dlen + L) % domstep == 0);
+			/* the default limit (and the one next to it) is where the name is tightest: every domain length */
+			int pick = (dlen == 3 || dlen == maxd || dlen == maxd - 1 || dlen == 4 || (dlen + L) % domstep == 0 || L >= 254);
 			if (!pick) continue;
 			if ((cnt++ % ns) != shard) continue;
 			mkdomain(dom, dlen, (int) (rnd() % 50));
